@@ -55,6 +55,8 @@ type sessionSpec struct {
 	Hostile *hostileSpec `json:"hostile,omitempty"`
 	// a raw daemon-protocol exchange (kind = "daemonreq")
 	DaemonReq *daemonReqSpec `json:"daemon_req,omitempty"`
+	// a hand-written receiving client against a real daemon (kind = "pullraw")
+	PullRaw *pullRawSpec `json:"pull_raw,omitempty"`
 }
 
 type sessionResult struct {
@@ -158,6 +160,14 @@ func runSessionInProcess(sp sessionSpec) (res sessionResult) {
 	res.ID = sp.ID
 	if sp.Kind == "parse" {
 		res.Parse, res.Outcome = parseObservable(sp.Args), "ok"
+		return res
+	}
+	if sp.Kind == "pullraw" {
+		if err := runPullRaw(sp, &res); err != nil {
+			res.Err, res.Outcome = err.Error(), "error"
+		} else {
+			res.Outcome = "ok"
+		}
 		return res
 	}
 	if sp.Kind == "daemonreq" {
